@@ -1,6 +1,6 @@
 SPECIFICATION Spec
-CONSTANTS MaxIn = 30
-  Slices = 1
+CONSTANTS MaxIn = 220
+  Slices = 48
   Slice = 0
-INVARIANTS Satisfiable Sensitive Promises
+INVARIANTS Satisfiable Sensitive Promises AlgorithmMeetsPostconditions
 CHECK_DEADLOCK FALSE
